@@ -28,6 +28,8 @@ EXTENDS Naturals, Sequences, FiniteSets, TLC
 CONSTANTS
   Users,            \* user names
   Flags,            \* tracking reasons (REQUESTED, FRIEND, TRANSFER)
+  FlagSets,         \* the arguments a call may carry: non-empty sets of reasons (TrackingFlag is a Flag
+                    \* enumeration: REQUESTED | FRIEND is as valid an argument as REQUESTED)
   MaxCalls,         \* bound on track/untrack calls
   MaxFaults,        \* bound on failing server behaviours (not-exists, silence, send failure)
   MaxCloses,        \* bound on server disconnects
@@ -76,9 +78,10 @@ RefInit == [want |-> [u \in Users |-> {}],        \* fold of the accepted calls
 EdgeOf(old, new) == IF old = {} /\ new # {} THEN <<"add">>
                     ELSE IF old # {} /\ new = {} THEN <<"rem">> ELSE <<>>
 
-\* an accepted track ("add") / untrack ("rem") call
-RefCall(r, u, op, f) ==
-  LET nw == IF op = "add" THEN r.want[u] \cup {f} ELSE r.want[u] \ {f} IN
+\* an accepted track ("add") / untrack ("rem") call with the set of reasons fs: plain set algebra,
+\* whether or not the reasons are (all) held
+RefCall(r, u, op, fs) ==
+  LET nw == IF op = "add" THEN r.want[u] \cup fs ELSE r.want[u] \ fs IN
   [r EXCEPT !.want[u] = nw, !.owed[u] = @ \o EdgeOf(r.want[u], nw)]
 
 IsEdgeFrame(r, u, k) == r.owed[u] # <<>> /\ Head(r.owed[u]) = k
@@ -231,7 +234,7 @@ RetryValid(x) == ~FixStaleRetry \/ x.rt = "fired"
 Process(X, rd, r, lg, u) ==
   LET x == X[u]
       q == Head(x.queue)
-      nf == IF q.op = "add" THEN x.flags \cup {q.f} ELSE IF q.op = "rem" THEN x.flags \ {q.f} ELSE x.flags
+      nf == IF q.op = "add" THEN x.flags \cup q.f ELSE IF q.op = "rem" THEN x.flags \ q.f ELSE x.flags
       prevE == x.flags = {}
       Y == [X EXCEPT ![u].flags = nf, ![u].queue = Tail(x.queue)]
   IN
@@ -309,7 +312,7 @@ RunRetry(u) ==
     /\ Runnable(i) /\ ready[i] = H("r", u)
     /\ IF U[u].rt = "due"
          THEN /\ U' = [U EXCEPT ![u].rt = "fired",
-                                ![u].queue = IF U[u].reg THEN Append(@, [op |-> "retry", f |-> None]) ELSE @]
+                                ![u].queue = IF U[u].reg THEN Append(@, [op |-> "retry", f |-> {}]) ELSE @]
               /\ ready' = IF U[u].reg THEN PutReady(Drop(i), u) ELSE Drop(i)
          ELSE /\ U' = [U EXCEPT ![u].rt = IF @ = "cancelling" THEN None ELSE @]
               /\ ready' = IF U[u].wpc \in {"cancelretry", "cancelretry2"} /\ ~InSeq(Drop(i), H("w", u))
@@ -378,8 +381,8 @@ DoneCallback(u) == RunDone(u) /\ Derived
 RetryRuns(u) == RunRetry(u) /\ Derived
 
 Next ==
-  \/ \E u \in Users, f \in Flags, ph \in Phases : TrackAt(u, f, ph)
-  \/ \E u \in Users, f \in Flags, ph \in Phases : UntrackAt(u, f, ph)
+  \/ \E u \in Users, f \in FlagSets, ph \in Phases : TrackAt(u, f, ph)
+  \/ \E u \in Users, f \in FlagSets, ph \in Phases : UntrackAt(u, f, ph)
   \/ \E ph \in Phases : CloseAt(ph)
   \/ \E u \in Users : WorkerRuns(u)
   \/ \E u \in Users, n \in 0..(MaxCalls + MaxFaults) : WorkerSendFails(u, n)
@@ -400,6 +403,7 @@ FairSpec == Spec /\ WF_vars(LibStep) /\ \A u \in Users : WF_vars(ServerStep(u)) 
 \* Properties (over the reference layer and the observables only)
 
 TypeOK ==
+  /\ FlagSets \subseteq (SUBSET Flags \ {{}})
   /\ \A u \in Users : U[u].wpc \in {None, "start", "getq", "cancelretry", "sendrem", "waitreply", "cancelretry2",
                                     "returned", "cancelled", "wedged"}
   /\ \A u \in Users : U[u].rt \in {None, "a10", "a600", "due", "fired", "cancelling"}
